@@ -112,6 +112,7 @@ type Gen struct {
 	ancMu      sync.Mutex
 	storeRecs  map[*ssa.BasicBlock]map[string][]storeRec // precise single-location stores per block and heap
 	imprecise  map[*ssa.BasicBlock]map[string]bool
+	defTag     map[int][]string // assumptions that stem from a clause restricted to some properties ([C01] label: ...)
 }
 
 type storeRec struct {
@@ -191,6 +192,22 @@ func (g *Gen) assume(s string) {
 		return
 	}
 	g.assumeRaw(imp(g.curReach, s))
+}
+
+// assumeTagged: an assumption that stems from a clause restricted to some properties. Obligations tagged with other
+// properties only do not get it (fewer assumptions: sound); it keeps the clauses one property adds to a shared function
+// from slowing down - or silently supporting - the obligations of another.
+func (g *Gen) assumeTagged(s string, props []string) {
+	if s == "true" {
+		return
+	}
+	if len(props) > 0 {
+		if g.defTag == nil {
+			g.defTag = map[int][]string{}
+		}
+		g.defTag[len(g.defs)] = props
+	}
+	g.assume(s)
 }
 
 // ---- sorts -------------------------------------------------------------------------------
@@ -370,6 +387,9 @@ func (g *Gen) sv(name, srt string) string {
 		if strings.HasPrefix(name, "$called_") {
 			g.preDefs = append(g.preDefs, "(assert (not "+name+"!0))")
 		}
+		if name == "E_uint8" {
+			g.preDefs = append(g.preDefs, "(assert "+byteHeapRange(name+"!0")+")")
+		}
 	} else if s != srt && srt != "" {
 		g.errs = append(g.errs, fmt.Sprintf("state var %s used at sorts %s and %s", name, s, srt))
 	}
@@ -385,6 +405,9 @@ func (g *Gen) svIn(st State, name, srt string) string {
 		g.declare(name+"!0", srt)
 		if strings.HasPrefix(name, "$called_") {
 			g.preDefs = append(g.preDefs, "(assert (not "+name+"!0))")
+		}
+		if name == "E_uint8" {
+			g.preDefs = append(g.preDefs, "(assert "+byteHeapRange(name+"!0")+")")
 		}
 	}
 	if s, ok := st[name]; ok {
@@ -423,7 +446,17 @@ func (g *Gen) havocSV(name, srt string) string {
 	g.sv(name, srt)
 	nv := g.newConst(name, g.svSort[name])
 	g.cur[name] = nv
+	if name == "E_uint8" {
+		g.assumeRaw(byteHeapRange(nv))
+	}
 	return nv
+}
+
+// byteHeapRange: every cell of a byte array holds a byte. Stated for the initial and for every havocked incarnation of
+// the byte element heap (incarnations defined by stores inherit it: stored values are bytes); the b2s axiom of the
+// prelude reads a cell as a character only when it is in range.
+func byteHeapRange(h string) string {
+	return fmt.Sprintf("(forall ((r Int) (i Int)) (! (and (<= 0 (select (select %s r) i)) (< (select (select %s r) i) 256)) :pattern ((select (select %s r) i))))", h, h, h)
 }
 
 func copyState(s State) State {
@@ -871,6 +904,7 @@ func (g *Gen) oblige(kind, label, goal, where, text string, props []string) {
 	if n := g.callNo["obl:"+name]; n > 1 {
 		name = fmt.Sprintf("%s#%d", name, n)
 	}
+	explicit := props
 	if len(props) == 0 && g.con != nil {
 		props = g.con.Props
 	}
@@ -880,7 +914,7 @@ func (g *Gen) oblige(kind, label, goal, where, text string, props []string) {
 		blk = g.curBlock.Index
 	}
 	g.obls = append(g.obls, &Obl{Block: blk, Name: name, Kind: kind, Label: label, Props: props, Hyp: g.curReach, Goal: goal, SkGoal: g.skolemizeGoal(goal), NDefs: len(g.defs), Where: where, Text: text, Fn: g.name, Code: g.curCode})
-	g.assume(goal)
+	g.assumeTagged(goal, explicit)
 }
 
 func (g *Gen) safety(class, label, goal string, p token.Pos) {
